@@ -208,3 +208,42 @@ def _assign(ctx):
     ctx.ob("C36.R5", site, "no right-hand element is evaluated inside the loop that stores the targets, or after a store", not inside and not late, construct="evaluate-all-first", node=(inside + late)[0] if (inside + late) else stores[0])
     allv = [e for e in evals if any(isinstance(a, (ast.ListComp, ast.For, ast.GeneratorExp)) for a in _ancestors(e, ga))]
     ctx.ob("C36.R5", site, "every element of the right-hand tuple is evaluated (comprehension / loop over the values)", bool(allv), construct="evaluate-every-element")
+    _fresh_reads(ctx)
+
+
+def _fresh_reads(ctx):
+    """R6: a Python local lives in a stack slot; statements store to the slot (assignment, augmented assignment, the
+    loop variable).  A read therefore loads the slot each time it is evaluated: a loaded value kept for later reads is
+    stale as soon as any store to the same name lies in between."""
+    from ..sym import conjuncts
+    ctx.rule("C36.R6", "every evaluation of a variable name emits its own load of the variable's slot: no loaded value is remembered across statements (an augmented assignment or loop increment in between would be missed)", floor=3)
+    gn = ctx.fn(F, "PythonToIrCompiler.gen_name") if ctx.project.modules[F].defs.get("PythonToIrCompiler.gen_name") else None
+    ctx.need(gn is not None, "gen_name not found")
+    site = F + ":PythonToIrCompiler.gen_name"
+    loads = [c for c in ast.walk(gn) if isinstance(c, ast.Call) and norm(c.func).endswith(".emit_load")]
+    ok = len(loads) == 1
+    if ok:
+        conds = [(" ".join(norm(c).split()), pol) for c, pol in conjuncts(loads[0], gn, {})]
+        ok = conds == [("var.lvalue", True)]
+        st = loads[0]._parent
+        ok = ok and isinstance(st, ast.Assign) and isinstance(st.targets[0], ast.Name)
+        rets = [norm(r.value) for r in ast.walk(gn) if isinstance(r, ast.Return)]
+        ok = ok and rets == [norm(st.targets[0])] if isinstance(st, ast.Assign) else False
+    ctx.ob("C36.R6", site, "reading an lvalue variable always emits a load (the only condition is that it is an lvalue) and returns that fresh value", ok, construct="load-per-read",
+           detail="; ".join("%s%s" % ("" if p else "not ", c) for c, p in (conjuncts(loads[0], gn, {}) and [(" ".join(norm(c).split()), p) for c, p in conjuncts(loads[0], gn, {})] or [])) if loads else "no load")
+    mod = ctx.project.module(F)
+    kept = []
+    for n in ast.walk(mod.tree):
+        if isinstance(n, ast.Assign) and any(isinstance(c, ast.Call) and norm(c.func).endswith(".emit_load") for c in ast.walk(n.value)):
+            for t in n.targets:
+                root = t
+                while isinstance(root, (ast.Subscript, ast.Attribute)):
+                    root = root.value
+                if isinstance(t, (ast.Subscript, ast.Attribute)) and isinstance(root, ast.Name) and root.id == "self":
+                    kept.append(n)
+    ctx.ob("C36.R6", F, "no loaded value is stored on the compiler object (a per-block or per-function cache of loads)", not kept, construct="no-load-cache", node=kept[0] if kept else None, detail="; ".join(" ".join(norm(k).split())[:70] for k in kept))
+    ga = ctx.fn(F, "PythonToIrCompiler.gen_aug_assign")
+    ld = [c for c in ast.walk(ga) if isinstance(c, ast.Call) and norm(c.func).endswith(".emit_load")]
+    stv = [c for c in ast.walk(ga) if isinstance(c, ast.Call) and norm(c.func) == "ir.Store"]
+    ok = len(ld) == 1 and len(stv) == 1 and norm(ld[0].args[0]) == norm(stv[0].args[1])
+    ctx.ob("C36.R6", F + ":PythonToIrCompiler.gen_aug_assign", "`x op= e` loads x from its slot and stores the result to the same slot", ok, construct="augassign-slot")
